@@ -137,13 +137,33 @@ def r10_4(ctx):
     in_test = [bb for bb, nm in incs if bb in regs["TestCodeBlock"] and not any(bb in regs[v] for v in regs if v != "TestCodeBlock")]
     ctx.check(len(incs) == 1 and len(in_test) == 1, "index-once-per-test-block", f.where(), "testcase_index is incremented exactly once, in the TestCodeBlock arm",
               "testcase_index increments: %d total, %d exclusive to the TestCodeBlock arm" % (len(incs), len(in_test)))
-    # every path through the TestCodeBlock arm passes the increment
+    # every path through the TestCodeBlock arm that reads outcomes[..] passes the increment exactly once, the others never
     from .c20 import _segment_events
-    ev = {bb: {"inc": 1} for bb in in_test}
+    reads = set()
+    for bi, blk in enumerate(f.blocks):
+        if blk["cleanup"]:
+            continue
+        for st in blk["stmts"]:
+            if st["k"] == "assign":
+                for pl in c06._places_of(st):
+                    c = f.canon_place(pl)
+                    if c["l"] == 3 and any(isinstance(p_, dict) and "idx" in p_ for p_ in c["p"]):
+                        reads.add(bi)
+        t = blk["term"]
+        if t["k"] == "call" and mname(t) in ("slice::get", "Index::index") and any(n.kind == "arg" and n.a == 3 for n in o.operand(t["args"][0]).walk()):
+            reads.add(bi)
+    ev = {}
+    for bb in in_test:
+        ev.setdefault(bb, {})["inc"] = 1
+    for bb in reads:
+        ev.setdefault(bb, {})["read"] = 1
     if ev:
         keys, outs = _segment_events(f, ve["TestCodeBlock"], set(), ev)
-        stops = {cnt[0] for how, cnt in outs if how == "stop"}
-        ctx.check(stops == {1}, "index-on-every-path", f.where(), "every completed TestCodeBlock iteration increments the index once", "increment counts on continuing paths: %s" % sorted(stops))
+        ki = {k: i for i, k in enumerate(keys)}
+        combos = {(cnt[ki["read"]] if "read" in ki else 0, cnt[ki["inc"]] if "inc" in ki else 0) for how, cnt in outs if how == "stop"}
+        ctx.check(combos and combos <= {(1, 1), (0, 0)}, "index-paired-with-read", f.where(),
+                  "every completed TestCodeBlock iteration either renders outcomes[n] and increments n once, or does neither",
+                  "(outcome reads, index increments) per iteration: %s" % sorted(combos))
     idx = set()
     for bi, blk in enumerate(f.blocks):
         if blk["cleanup"]:
@@ -159,6 +179,59 @@ def r10_4(ctx):
     names = sorted({n for _, n in idx})
     ctx.check(names == ["testcase_index"] and len({b for b, _ in idx}) == 1, "outcome-by-index", f.where(), "the n-th test block is rewritten from outcomes[n] (single reader)",
               "outcomes is indexed by %s at %d sites" % (names, len(idx)))
+
+
+def r10_8(ctx):
+    """sibling agreement parser <-> update generator on which scrut blocks hold a test case: the parser closes a test only for a
+    block with at least one code line; the generator must consume an outcome under the same condition, otherwise the n-th
+    outcome is written into the wrong block (or indexing panics) as soon as a document contains an empty scrut block"""
+    prog = ctx.prog
+    p = prog.impl_fn("MarkdownParser", "Parser", "parse")
+    op = Origins(p)
+    f = _update(prog)
+    o = Origins(f)
+
+    def nonempty_guard(body, orig, bb, field):
+        """is block bb reached only when `<token>.field` is known non-empty? (is_empty()==false edge, last()/first() Some edge, len()>0)"""
+        for sb, st in switches(body):
+            be = bool_edges(body, sb)
+            if be is not None:
+                tree = cond_tree(body, sb, orig)
+                neg = False
+                while tree.kind == "un" and tree.a == "Not":
+                    neg = not neg
+                    tree = tree.kids[0]
+                if tree.kind == "call" and method_name(tree.a).endswith("is_empty") and any(n.kind == "field" and n.a == field for n in tree.walk()):
+                    edge = be[0] if neg else be[1]
+                    if bb in body.reachable(edge) and bb not in body.reachable(0, removed_edges=[(sb, edge)]):
+                        return "is_empty() == false"
+            ve, rv = variant_edges(body, sb)
+            if ve is not None and set(ve) == {"Some", "None"}:
+                d = body.single_def(rv["place"]["l"])
+                if d and d[2] == "call" and mname(d[3]) in ("slice::last", "slice::first", "Vec::last", "Vec::first") and \
+                        any(n.kind == "field" and n.a == field for n in orig.operand(d[3]["args"][0]).walk()):
+                    if bb in body.reachable(ve["Some"]) and bb not in body.reachable(0, removed_edges=[(sb, ve["Some"])]):
+                        return "last()/first() is Some"
+        return None
+    ends = [bb for bb, t in p.calls() if (callee_name(t) or "").endswith("LineParser::end_testcase")]
+    pg = [nonempty_guard(p, op, bb, "code_lines") for bb in ends]
+    ctx.check(ends and all(pg), "parser-condition", p.where(), "the parser closes a test case only for a scrut block with at least one code line (%s)" % pg,
+              "MarkdownParser::parse closes test cases unconditionally (guards: %s)" % pg)
+    reads = []
+    for bi, blk in enumerate(f.blocks):
+        if blk["cleanup"]:
+            continue
+        for st in blk["stmts"]:
+            if st["k"] == "assign":
+                for pl in c06._places_of(st):
+                    c = f.canon_place(pl)
+                    if c["l"] == 3 and any(isinstance(p_, dict) and "idx" in p_ for p_ in c["p"]):
+                        reads.append(bi)
+    gg = [nonempty_guard(f, o, bb, "code_lines") for bb in sorted(set(reads))]
+    ctx.check(reads and all(gg) and all(pg), "generator-agrees", f.loc(reads[0]) if reads else f.where(),
+              "the update generator consumes an outcome only for a block with at least one code line, like the parser (%s)" % gg,
+              "the update generator consumes outcomes[testcase_index] for *every* scrut block, but the parser yields no test case for a block without code lines: "
+              "with an empty ```scrut block in the document the outcomes are written into the wrong blocks or `scrut update` panics (index out of bounds)")
 
 
 def r10_5(ctx):
@@ -230,10 +303,40 @@ def r10_6(ctx):
     ctx.check(n >= 3, "reads-analysed", f.where(), "%d line reads analysed" % n)
 
 
+def r10_7(ctx):
+    """`original` (what a passing test is re-emitted from) is the expectation line exactly as written"""
+    from ..facts import chain_to
+    prog = ctx.prog
+    p = prog.fn("ExpectationMaker::parse")
+    o = Origins(p)
+    mk = [(bb, t) for bb, t in p.calls() if (callee_name(t) or "").endswith("ExpectationMaker::make")]
+    if len(mk) != 1:
+        raise AnchorError("ExpectationMaker::parse: make call not found")
+    bb, t = mk[0]
+    orig = o.operand(t["args"][5])
+    ch = chain_to(orig, lambda n: n.kind == "arg" and n.a == 2) or ["<not derived from the line>"]
+    ch = [c for c in ch if c not in ("Deref::deref", "Cow::deref", "Borrow::borrow", "AsRef::as_ref")]
+    ctx.check(ch in ([], ["StringNewline::trim_newlines"]), "original-verbatim", p.loc(bb),
+              "the stored original is the line as written (only the line terminator removed)",
+              "the stored original flows through %s: trailing/leading whitespace of a passing expectation is lost when `update` re-emits it" % ch)
+    m = prog.fn("ExpectationMaker::make")
+    om = Origins(m)
+    from ..cfgq import aggregates
+    for ab, si, rv in aggregates(m, "Expectation", "Expectation"):
+        src = om.operand(rv["ops"][rv["fields"].index("original")])
+        chm = [c for c in (chain_to(src, lambda n: n.kind == "arg" and n.a == 6) or ["<other>"]) if c not in ("Into::into", "From::from", "ToString::to_string", "ToOwned::to_owned")]
+        ctx.check(chm == [], "make-stores-original", stmt_loc(m, ab, si), "make() stores the original unchanged", "make() stores original through %s" % chm)
+    g = prog.fn("Expectation::original_string")
+    r = peel(Origins(g).local(0))
+    ctx.check(r.kind == "field" and r.a == "original", "original-string-getter", g.where(), "original_string() returns the stored original unchanged", "original_string is %s" % r.show())
+
+
 def run(ctx):
     ctx.run_rule("R10.1", "token-field conservation in generate_update: every text field of every token variant is written back untrimmed; only code_lines is replaced [E-FLOW]", r10_1, floor=9)
     ctx.run_rule("R10.2", "the tokenizer never ends early (R6.1) and generate_update re-emits all tokens of the original document [E-PATH]", r10_2, floor=4)
     ctx.run_rule("R10.3", "a passing test is re-emitted from original_string (all expectations, command, exit code) [E-FLOW]", r10_3, floor=4)
     ctx.run_rule("R10.4", "block/outcome pairing: testcase_index incremented exactly once per test block; outcomes[testcase_index] single reader [E-STATE]", r10_4, floor=3)
     ctx.run_rule("R10.5", "fence and `$`/`>`/`[code]` writer-reader tables (R9.1, R9.4): the rewritten block parses to the same commands [E-TABLE]", r10_5, floor=15)
+    ctx.run_rule("R10.8", "sibling agreement: parser and update generator agree on which scrut blocks carry a test case (non-empty code lines) [E-TABLE/E-PATH]", r10_8, floor=2)
+    ctx.run_rule("R10.7", "the text a passing expectation is re-emitted from is the line as written: parse -> make -> original_string without trimming [E-FLOW]", r10_7, floor=3)
     ctx.run_rule("R10.6", "consumed-line conservation in MarkdownIterator::next: each read line is stored once or consumed as a delimiter on every path [E-STATE by dataflow]", r10_6, floor=4)
